@@ -68,8 +68,14 @@ def skeletons(tier, seed):
         prog = gen.generate(seed, i, max_choices=mc)
         items.append(("gen/%d/%d" % (seed, i), prog, {}))
     import random as _r
-    for i in range(60 if tier == "quick" else 1500):
+    for i in range(150 if tier == "quick" else 2500):
         items.append(("cyc/%d/%d" % (seed, i), gen.cyclic_prop_program(_r.Random("cyc/%s/%s" % (seed, i))), {}))
+    # numeric variants: every parameter collapsed to one constant (real route only)
+    base = [it for it in items if "[" not in it[0]]
+    for name, prog, kw in base[:: (4 if tier == "quick" else 1)]:
+        kw2 = dict(kw)
+        kw2["bool_route"] = False
+        items.append((name + "[collapsed]", gen.collapse_params(prog), kw2))
     if tier == "thorough":
         for i in range(150):
             prog = gen.generate(seed, 100000 + i, max_choices=24)
